@@ -10,7 +10,7 @@ pub(crate) mod testing;
 
 use std::collections::{HashMap, HashSet};
 use std::fs::File;
-use std::io::{BufRead, BufReader};
+use std::io::Read;
 use std::path;
 use std::result::Result;
 use std::str::FromStr;
@@ -101,15 +101,16 @@ pub(crate) struct Config {
 }
 impl Config {
     pub(crate) fn new(file_path: &path::Path) -> Result<Config, MonorailError> {
-        let file = File::open(file_path).map_err(|e| {
+        let mut file = File::open(file_path).map_err(|e| {
             MonorailError::Generic(format!(
                 "Could not open configuration file at {}; {}",
                 file_path.display(),
                 e
             ))
         })?;
-        let mut buf_reader = BufReader::new(file);
-        let buf = buf_reader.fill_buf().map_err(|e| {
+        // read the whole file; a single fill_buf() only yields the first buffer's worth
+        let mut buf = Vec::new();
+        file.read_to_end(&mut buf).map_err(|e| {
             MonorailError::Generic(format!(
                 "Could not read configuration file data at {}; {}",
                 file_path.display(),
@@ -117,9 +118,9 @@ impl Config {
             ))
         })?;
         let mut hasher = sha2::Sha256::new();
-        hasher.update(buf);
+        hasher.update(&buf);
 
-        let mut config: Config = serde_json::from_str(std::str::from_utf8(buf).map_err(|e| {
+        let mut config: Config = serde_json::from_str(std::str::from_utf8(&buf).map_err(|e| {
             MonorailError::Generic(format!(
                 "Configuration file at {} contains invalid UTF-8; {}",
                 file_path.display(),
